@@ -42,6 +42,77 @@ theorem zipRows3_takeEvery {α : Type} : ∀ f : List α,
       simp only [takeEvery3, List.drop_succ_cons, List.drop_zero, zipRows3, regroup3] at ih ⊢
       rw [ih]
 
+/-! ### the same re-tupling written as `list(zip(*[f[axis::ndim] for axis in range(ndim)]))` -/
+
+theorem everyNth_nil {α : Type} (n fuel : Nat) : everyNth n fuel ([] : List α) = [] := by
+  cases fuel <;> rfl
+
+theorem everyNth2 {α : Type} : ∀ (fuel : Nat) (l : List α), l.length ≤ fuel → everyNth 2 fuel l = takeEvery2 l
+  | 0, [], _ => rfl
+  | 0, _ :: _, h => by simp at h
+  | _ + 1, [], _ => rfl
+  | _ + 1, [a], _ => by simp [everyNth, takeEvery2, everyNth_nil]
+  | n + 1, a :: b :: t, h => by
+    simp only [everyNth, takeEvery2, Nat.add_one_sub_one, List.drop_succ_cons, List.drop_zero]
+    rw [everyNth2 n t (by simp at h; omega)]
+
+theorem everyNth3 {α : Type} : ∀ (fuel : Nat) (l : List α), l.length ≤ fuel → everyNth 3 fuel l = takeEvery3 l
+  | 0, [], _ => rfl
+  | 0, _ :: _, h => by simp at h
+  | _ + 1, [], _ => rfl
+  | _ + 1, [a], _ => by simp [everyNth, takeEvery3, everyNth_nil]
+  | _ + 1, [a, b], _ => by simp [everyNth, takeEvery3, everyNth_nil]
+  | n + 1, a :: b :: c :: t, h => by
+    simp only [everyNth, takeEvery3, List.drop_succ_cons, List.drop_zero]
+    rw [everyNth3 n t (by simp at h; omega)]
+
+theorem transposeF2 {α : Type} : ∀ (n : Nat) (a b : List α), a.length ≤ n → transposeF n [a, b] = zipRows2 a b
+  | 0, [], b, _ => by simp [transposeF, zipRows2]
+  | 0, _ :: _, _, h => by simp at h
+  | _ + 1, [], b, _ => by simp [transposeF, splitHeads, zipRows2]
+  | _ + 1, x :: a, [], _ => by simp [transposeF, splitHeads, zipRows2]
+  | n + 1, x :: a, y :: b, h => by
+    simp only [transposeF, splitHeads, zipRows2, List.zipWith_cons_cons]
+    rw [transposeF2 n a b (by simp at h; omega)]
+    rfl
+
+theorem transposeF3 {α : Type} : ∀ (n : Nat) (a b c : List α), a.length ≤ n → transposeF n [a, b, c] = zipRows3 a b c
+  | 0, [], b, c, _ => by simp [transposeF, zipRows3]
+  | 0, _ :: _, _, _, h => by simp at h
+  | _ + 1, [], b, c, _ => by simp [transposeF, splitHeads, zipRows3]
+  | _ + 1, x :: a, [], c, _ => by simp [transposeF, splitHeads, zipRows3]
+  | _ + 1, x :: a, y :: b, [], _ => by simp [transposeF, splitHeads, zipRows3]
+  | n + 1, x :: a, y :: b, z :: c, h => by
+    simp only [transposeF, splitHeads, zipRows3]
+    rw [transposeF3 n a b c (by simp at h; omega)]
+
+/-- `list(zip(f[::2], f[1::2]))` -/
+theorem transpose_pair {α : Type} (f : List α) : transposeRows [strideFrom f 0 2, strideFrom f 1 2] = regroup2 f := by
+  simp only [transposeRows, strideFrom, List.drop_zero]
+  rw [transposeF2 _ _ _ (Nat.le_refl _), everyNth2 _ _ (by omega), everyNth2 _ _ (by simp; omega)]
+  exact zipRows2_takeEvery f
+
+/-- `list(zip(f[::3], f[1::3], f[2::3]))` -/
+theorem transpose_triple {α : Type} (f : List α) :
+    transposeRows [strideFrom f 0 3, strideFrom f 1 3, strideFrom f 2 3] = regroup3 f := by
+  simp only [transposeRows, strideFrom, List.drop_zero]
+  rw [transposeF3 _ _ _ _ (Nat.le_refl _), everyNth3 _ _ (by omega), everyNth3 _ _ (by simp; omega),
+    everyNth3 _ _ (by simp; omega)]
+  exact zipRows3_takeEvery f
+
+/-- `list(zip(*[f[axis::2] for axis in range(2)]))` -/
+theorem transpose_stride2 {α : Type} (f : List α) :
+    transposeRows (List.map (fun a => strideFrom f a 2) (List.range 2)) = regroup2 f := by
+  have hr : List.range 2 = [0, 1] := rfl
+  rw [hr]
+  exact transpose_pair f
+
+theorem transpose_stride3 {α : Type} (f : List α) :
+    transposeRows (List.map (fun a => strideFrom f a 3) (List.range 3)) = regroup3 f := by
+  have hr : List.range 3 = [0, 1, 2] := rfl
+  rw [hr]
+  exact transpose_triple f
+
 theorem map_nan_filter (l : List (Option Rat)) :
     List.map (fun it1 => let x0 := it1; (if x0.isNone then none else x0)) l = l := by
   induction l with
